@@ -56,6 +56,7 @@ struct Hist {
     models: VecDeque<(H, Arc<Model>)>,
     keys_per_tip: usize,
     keys_per_step: usize,
+    stopped: bool,
 }
 
 impl Hist {
@@ -131,6 +132,9 @@ impl Hist {
     /// `append(b); rollback()` restores the raw store and every answer.
     fn rollback_exactness(&mut self, b: &BlockView, r: &mut Report) {
         let Some((_, tip)) = self.idx_tip() else { return };
+        if !self.tg.rc.contains(&tip) {
+            return;
+        }
         let m = self.model_at(&tip);
         let pool = keys::script_pool(&m);
         let mut krng = self.rng.fork(0x72);
@@ -234,6 +238,13 @@ impl Hist {
                     r.count("blocks_appended");
                     appended += 1;
                 }
+                Some((_, hash)) if !self.tg.rc.contains(&hash) => {
+                    // reported by `oracle` as indexer_tip.unknown_block (or observed beyond
+                    // the retention); the history cannot be continued
+                    r.count("histories_stopped_on_unknown_indexer_tip");
+                    self.stopped = true;
+                    break;
+                }
                 Some((n, hash)) => match self.tg.rc.ancestor_at(&main_tip, n + 1) {
                     None => break,
                     Some(bh) => {
@@ -329,6 +340,7 @@ fn run_history(seed: u64, hi: u64, tier: Tier, deadline: Instant, r: &mut Report
         models: VecDeque::new(),
         keys_per_tip: tier.pick(40, 48),
         keys_per_step: tier.pick(8, 10),
+        stopped: false,
     };
     r.count("histories");
     LEFT_RETENTION.with(|c| c.set(false));
@@ -336,7 +348,7 @@ fn run_history(seed: u64, hi: u64, tier: Tier, deadline: Instant, r: &mut Report
     let mut made = 0u64;
     let mut deep_done = false;
     let mut quiet_until = 0u64;
-    while made < n_blocks {
+    while made < n_blocks && !hst.stopped {
         if Instant::now() > deadline {
             r.count("histories_cut_by_budget");
             break;
@@ -392,7 +404,7 @@ fn run_history(seed: u64, hi: u64, tier: Tier, deadline: Instant, r: &mut Report
         }
         hst.sync(r, keyset);
     }
-    if hi < 3 {
+    if hi < 2 {
         r.sample(json!({"history": hst.info, "blocks_generated": made, "indexer_tip": hst.idx_tip().map(|(n, x)| format!("#{n} {}", hx(&x))),
                         "model_live_cells": hst.idx_tip().map(|(_, t)| hst.model_at(&t).live.len()), "asserting_until_end": hst.assert}));
     }
@@ -440,7 +452,7 @@ fn main() {
         panic_store().lock().unwrap().insert(thread_key(), format!("{loc} :: {msg}"));
     }));
     let mut report = Report::new("C18", "exploration", &args, RULE);
-    let n_hist = args.get_u64("histories", args.tier.pick(48, 600));
+    let n_hist = args.get_u64("histories", args.tier.pick(72, 900));
     let workers = args.get_u64("workers", args.tier.pick(8, 10)).max(1);
     let deadline = Instant::now() + Duration::from_secs(args.get_u64("budget_s", args.tier.pick(55, 780)));
     let only: Option<u64> = args.extra.get("only").and_then(|s| s.parse().ok());
